@@ -1243,7 +1243,6 @@ var readOnlyDeniedKeywords = map[string]struct{}{
 // or hint glued to the keyword (`insert/**/into`) does not hide it.
 func leadingKeyword(sql string) string {
 	i, n := 0, len(sql)
-	inVersionComment := false
 	for i < n {
 		ch := sql[i]
 		switch {
@@ -1256,14 +1255,14 @@ func leadingKeyword(sql string) string {
 				return ""
 			}
 			i += end + 1
-		case inVersionComment && ch == '*' && i+1 < n && sql[i+1] == '/':
-			// end of an empty version comment (`/*!40101 */ insert ...`): the statement follows
-			inVersionComment = false
+		case ch == '*' && i+1 < n && sql[i+1] == '/':
+			// end of a version comment: of an empty one (`/*!40101 */ insert ...`), or of one
+			// that was opened in an earlier piece of an unsplit packet
+			// (`select 1 /*!40101 ; */drop table t`): the statement follows
 			i += 2
 		case ch == '/' && i+1 < n && sql[i+1] == '*':
 			if i+2 < n && sql[i+2] == '!' {
 				// version comment: its content is part of the statement
-				inVersionComment = true
 				i += 3
 				for i < n && sql[i] >= '0' && sql[i] <= '9' {
 					i++
